@@ -29,3 +29,9 @@ mod utils;
 mod ffi;
 
 pub mod data_types;
+
+// Verification hooks (add-only): thin public wrappers around crate-internal pure
+// functions, compiled only with `RUSTFLAGS="--cfg anoncreds_verif"`.
+#[cfg(anoncreds_verif)]
+#[doc(hidden)]
+pub mod verif_hooks;
